@@ -3,7 +3,9 @@
 Every generated case carries the output the property's own words predict for it (computed in text_gen from
 the payload / the wrap lines, never from the model); the ORACLE compares it with emmet.expand.  The same
 cases (plus a stream of inputs outside the statement's domain) run through the extracted Coq model and are
-compared on every output.text / output.field callback invocation (text chunk, offset, line, column)."""
+compared on every output.text / output.field callback invocation (text chunk, offset, line, column).
+Runs of text parts on one unit (gen_text_runs) go the same way; user `output.text` hooks (hook_stream) are judged
+by the oracle only (the model has the identity hook)."""
 import glob
 import itertools
 import json
@@ -1184,7 +1186,20 @@ def run(ctx):
         'balanced inner braces (text_gen.payload_nested; every item kind at depths 0..3 swept), as element text alone, repeated, '
         'under a repeated parent / group, and as an {expression} attribute value; oracle: output text = the payload with escapes '
         'resolved, inner braces kept, every counter replaced by its value in copy i of N (1 outside repeaters); plus the front-end '
-        'oracle (tokens in order, closing brace = last character, abbreviation tree per copy).')
+        'oracle (tokens in order, closing brace = last character, abbreviation tree per copy). (runs:*) RUNS OF TEXT PARTS on one unit: '
+        '`name{T1}{T2}`, `name{T1}.c#i[a=b]{T2}{T3}`, up to 4 texts, bare `{T1}{T2}`, each text EMPTY (`{}`, 40 %), blank (space, tab, NBSP, a '
+        'lone line break) or a random payload, every combination of 8 basic first/second texts swept with and without attribute parts '
+        'between them, alone / under a parent / in a group / in a repeated group / followed by `+q` `>i` `*2` `^q`; a unit has ONE text, each '
+        'further `{...}` is a text node of its own following it: expected `<name attrs>T1</name>T2T3` whatever is empty; with wrap '
+        'lines the implicit repeater written at every place of the unit before the second text (copies of the unit, each with its line '
+        'appended to T1 or at its `$#`, T2.. once after them), on the last text of the run (one copy of that text per line), or absent '
+        '(whole text into the deepest last element, which may be the trailing text node). (hook:*) USER `output.text` HOOKS: %d named '
+        'pure functions (%s) installed as the documented text processor; texts and wrap lines made of ONE character class (zero-width '
+        'characters, white space, letters, digits, punctuation, non-ASCII) of length 1/2/4 at every text position under every hook, plus a '
+        'random hook on a sample of all statement-level cases above; oracle: the pieces handed to the hook concatenate to the output '
+        'the statement predicts (text reaches the hook verbatim) and the result is exactly the concatenation of what the hook returned, '
+        'also where that is the empty string for a non-empty piece; hooks are outside the Coq model (identity hook only): oracle only.'
+        % (len(HOOKS), ', '.join(HOOK_NAMES)))
     quick = ctx.tier == 'quick'
     cases = gen_corpus(ctx)
     cases += gen_exhaustive(ctx)
